@@ -30,7 +30,10 @@ def _worker(args):
     try:
         if what == 'correspondence':
             return prop.correspondence(ctx)
-        return prop.oracle(ctx, full)
+        r = prop.oracle(ctx, full)
+        for f in r.get('findings', []):
+            f['replay_key'] = dict(worker_seed=ctx.seed, shards=shards, shard=shard, full=bool(full), tier=tier)
+        return r
     except Exception as e:
         import traceback
         return dict(worker_error=f"{type(e).__name__}: {e}", trace=traceback.format_exc()[-1500:])
@@ -59,10 +62,49 @@ def _merge(results, what):
     return out
 
 
+def replay(prop, pid, path):
+    """re-run what a replay file describes: the oracle worker that found the failing input (same seed, shard, budget —
+    every random choice derives from them), or the recorded script of a correspondence disagreement; exit 1 with the
+    VIOLATION line if it shows again, 0 if it does not"""
+    r = json.load(open(path))
+    print(json.dumps({k: v for k, v in r.items() if k != 'finding'}, indent=1, default=str)[:1500])
+    f = r.get('finding') or {}
+    key = f.get('replay_key')
+    if key:
+        ctx = Ctx(pid, key['tier'], key['worker_seed'], key['shards'], key['shard'])
+        res = prop.oracle(ctx, key['full'])
+        hit = [g for g in res.get('findings', []) if g.get('signature') == f.get('signature')] or res.get('findings', [])
+        if hit:
+            print(f"VIOLATION property={pid} replay={path}")
+            print(f"  {hit[0].get('what', '')[:300]}")
+            return 1
+        print(f"not reproduced on the current tree (property={pid}, {res.get('evaluations', 0)} evaluations)")
+        return 0
+    for b in r.get('no_longer_checks', []) or r.get('broken', []):
+        if b.get('kind') == 'correspondence' and b.get('script_file') and os.path.exists(b['script_file']):
+            lines = open(b['script_file']).read().split('\n')
+            from . import pyexec
+            d = pyexec.diff_script([l for l in lines if l], C.Driver(), C.REPO)
+            if d:
+                print(f"VIOLATION property={pid} replay={path} no-failing-input-found")
+                print(f"  model and implementation differ at op {d['op_index']}: {d['op'][:120]}  real: {d['python'][:3]}  model: {d['lean'][:3]}")
+                return 1
+            print("the recorded script no longer shows a difference")
+            return 0
+    if hasattr(prop, 'replay'):
+        return prop.replay(Ctx(pid, r.get('tier', 'quick'), r.get('seed', 0)), path)
+    return 0
+
+
 def run_part(prop, ctx, what, full=False):
     """correspondence / oracle: in-process for the quick budget, sharded over worker processes for the thorough budget"""
     if (ctx.quick and not full) or WORKERS == 1 or not getattr(prop, 'SHARDABLE', True):
-        return prop.correspondence(ctx) if what == 'correspondence' else prop.oracle(ctx, full)
+        if what == 'correspondence':
+            return prop.correspondence(ctx)
+        r = prop.oracle(ctx, full)
+        for f in r.get('findings', []):
+            f['replay_key'] = dict(worker_seed=ctx.seed, shards=1, shard=0, full=bool(full), tier=ctx.tier)
+        return r
     import multiprocessing as mp
     with mp.get_context('fork').Pool(WORKERS) as pool:
         res = pool.map(_worker, [(ctx.pid, ctx.tier, ctx.seed, WORKERS, w, what, full) for w in range(WORKERS)])
@@ -94,7 +136,7 @@ def main(argv=None):
         return 2
     ctx = Ctx(pid, tier, seed)
     if a.replay:
-        return prop.replay(ctx, a.replay)
+        return replay(prop, pid, a.replay)
     t0 = time.time()
     broken = []          # reasons why the proof / the tie no longer checks
     cov = dict(trusted_base=list(C.TRUSTED_BASE) + list(getattr(prop, 'TRUSTED_EXTRA', [])))
@@ -151,7 +193,14 @@ def main(argv=None):
                 cov['correspondence'] = {k: v for k, v in corr.items() if k not in ('disagreements', 'samples')}
                 cov['disagreements_checked'] = len(corr.get('disagreements', []))
                 if corr.get('disagreements'):
-                    broken.append(dict(kind='correspondence', what=json.dumps(corr['disagreements'][0], default=str)[:600]))
+                    d0 = corr['disagreements'][0]
+                    sf = None
+                    if d0.get('full_script'):
+                        os.makedirs(os.path.join(C.ROOT, 'replays'), exist_ok=True)
+                        sf = os.path.join(C.ROOT, 'replays', f"{pid}_disagreement.script")
+                        open(sf, 'w').write("\n".join(d0['full_script']) + "\n")
+                    broken.append(dict(kind='correspondence', script_file=sf,
+                                       what=json.dumps({k: v for k, v in d0.items() if k != 'full_script'}, default=str)[:600]))
             else:
                 cov['traces_validated_against_impl'] = 0
         # direct oracle on the real code (small budget when everything is intact, full budget as failing-input search)
